@@ -33,7 +33,6 @@ def run_target(job):
         mod = importlib.import_module(module)
         W = mod.W
         rel, qual = mod.TARGETS[key][:2]
-        res['assumed_contracts'] = sorted(set(W.contracts) - set(mod.TARGETS) - set(getattr(mod, 'VERIFIED_ELSEWHERE', ())))
         res['file'], res['qualname'] = rel, qual
         fns = load(os.path.join(repo, rel))
         if qual not in fns:
@@ -46,6 +45,8 @@ def run_target(job):
             res['status'] = 'out-of-subset'; res['detail'] = str(ex); return res
         except AttributeError as ex:          # an invariant names a local that no longer exists
             res['status'] = 'unbound'; res['detail'] = f'contract does not bind to the current source: {ex}'; return res
+        ve = getattr(mod, 'VERIFIED_ELSEWHERE', {})
+        res['callee_contracts'] = {k: ('target' if k in mod.TARGETS else ve.get(k, 'assumed')) for k in sorted(eng.used)}
         discharge(obls, W.axioms, timeout_ms=timeout_ms, ground_sorts=getattr(W, 'ground_sorts', ()))
         s = summary(obls)
         res.update(obligations=s['obligations'], proved=s['proved'], canaries=s['canaries'])
